@@ -225,9 +225,15 @@ static inline int all_tasks_done(parsec_context_t* context)
 
 void parsec_taskpool_termination_detected(parsec_taskpool_t *tp)
 {
+#if defined(PARSEC_VERIF)
+    PARSEC_VERIF_YIELD(PARSEC_VERIF_SITE_SCHEDULING);
+#endif
     if( NULL != tp->on_complete ) {
         (void)tp->on_complete( tp, tp->on_complete_data );
     }
+#if defined(PARSEC_VERIF)
+    PARSEC_VERIF_YIELD(PARSEC_VERIF_SITE_SCHEDULING);
+#endif
     (void)parsec_atomic_fetch_dec_int32( &(tp->context->active_taskpools) );
     PARSEC_PINS_TASKPOOL_FINI(tp);
 }
@@ -531,6 +537,9 @@ int __parsec_task_progress( parsec_execution_stream_t* es,
                 SET_LOWEST_PRIORITY(task, parsec_execution_context_priority_comparator);
             } else
                 task->priority /= 10;  /* demote the task */
+#if defined(PARSEC_VERIF)
+            PARSEC_VERIF_YIELD(PARSEC_VERIF_SITE_SCHEDULING);
+#endif
             PARSEC_LIST_ITEM_SINGLETON(task);
             __parsec_schedule(es, task, distance + 1);
             break;
@@ -558,6 +567,9 @@ int __parsec_task_progress( parsec_execution_stream_t* es,
             SET_LOWEST_PRIORITY(task, parsec_execution_context_priority_comparator);
         } else
             task->priority /= 10;  /* demote the task */
+#if defined(PARSEC_VERIF)
+        PARSEC_VERIF_YIELD(PARSEC_VERIF_SITE_SCHEDULING);
+#endif
         PARSEC_LIST_ITEM_SINGLETON(task);
         __parsec_schedule(es, task, distance + 1);
         break;
@@ -817,6 +829,9 @@ int __parsec_context_wait( parsec_execution_stream_t* es )
         }
     }
 
+#if defined(PARSEC_VERIF)
+    PARSEC_VERIF_YIELD(PARSEC_VERIF_SITE_SCHEDULING);
+#endif
     parsec_rusage_per_es(es, true);
 
     /* We're all done ? */
